@@ -224,6 +224,20 @@ CHECKS = {
              "Defect found and repaired: read_dataset's ERA5 branch.",
         technique="TLA+ quantity algebra of the unit/direction conventions + TLC invariants + replay of every state",
         ref="§4 C12", engine="tlc"),
+    "C11": dict(
+        text="SWAN ASCII is specified as a record grammar with a writer automaton and a reader automaton (formats/Swan.tla); TLC "
+             "checks RoundTrip = Read(Write(ds)) over every assignment of {missing, zero, A, B} to the positions of station lists and "
+             "lat x lon grids of unequal sizes / unsorted axes, with the positional (pre-repair) reader kept as a regression whose "
+             "expected result is the counterexample. Writer conformance by trace validation: files written by the real to_swan are lexed "
+             "into integer records and SwanTrace.tla demands they are exactly Write(ds) (header order, location order, block kinds, "
+             "factor on the lattice, every mantissa). Reader conformance by replay of rendered record sequences with permuted location "
+             "order. ChunkLoop.tla checks the ntime loops of to_swan / to_octopus (every time exactly once, in order, termination). "
+             "JSON, wavespectra netCDF (packed/unpacked), WW3 netCDF, Octopus and Funwave are replayed end to end (plain/gzip, chunked, "
+             "zero and missing spectra, unsorted directions, energies spanning orders of magnitude).",
+        note="Trusted: TLC, the 90-line lexer/renderer (keywords and numbers only). netCDF only through the scipy engine (NETCDF3); zlib "
+             "and zarr cannot be executed offline. Known finding: Octopus chunked writing. Two defects repaired (gridded SWAN reader, packed netCDF).",
+        technique="TLA+ record grammar with writer/reader automata + TLC round-trip + writer trace validation + reader replay",
+        ref="§4 C11", engine="tlc"),
 }
 
 NOT_YET = "check not yet built in this round (see DESIGN.md §4 for the planned TLA+ model); not claimed"
